@@ -156,7 +156,7 @@ func TestC15_Public(t *testing.T) {
 				if got != want {
 					c15ModelMismatch(g, "UintN(%d) at stream offset %d = %d; the first masked %d-byte little-endian keystream value <= n-1 is %d", n, pos, got, (bits.Len64(n-1)+7)/8, want)
 				}
-				if p := storedPos(r.Store()); p != pos+used {
+				if p := streamPos(g, r, seed, nonce, pos, 1<<17); p != pos+used {
 					c15ModelMismatch(g, "UintN(%d) at stream offset %d consumed %d bytes, the model consumes %d", n, pos, p-pos, used)
 				}
 				pos += used
@@ -188,7 +188,7 @@ func TestC15_Public(t *testing.T) {
 				if !equalInts(p1, want) {
 					c15ModelMismatch(g, "Permutation(%d) at stream offset %d = %v, inside-out Fisher-Yates over the keystream gives %v", n, pos, c15Head(p1), c15Head(want))
 				}
-				if p := storedPos(r.Store()); p != pos+used {
+				if p := streamPos(g, r, seed, nonce, pos, 1<<17); p != pos+used {
 					c15ModelMismatch(g, "Permutation(%d) at stream offset %d consumed %d bytes, the model consumes %d", n, pos, p-pos, used)
 				}
 				pos += used
@@ -219,7 +219,7 @@ func TestC15_Public(t *testing.T) {
 				}
 				// the position is taken from the generator: the documentation does not
 				// say how many of the n draws of a full permutation are made
-				pos = storedPos(r.Store())
+				pos = streamPos(g, r, seed, nonce, pos, 1<<17)
 				if m < n || n >= 3 {
 					nontrivial = true
 				}
@@ -256,7 +256,7 @@ func TestC15_Public(t *testing.T) {
 				if !equalInts(l1.items[:m], want[:m]) {
 					c15ModelMismatch(g, "%s at stream offset %d: the first %d items are %v, Fisher-Yates over the keystream selects %v", name, pos, m, c15Head(l1.items[:m]), c15Head(want[:m]))
 				}
-				if p := storedPos(r.Store()); p != pos+used {
+				if p := streamPos(g, r, seed, nonce, pos, 1<<17); p != pos+used {
 					c15ModelMismatch(g, "%s at stream offset %d consumed %d bytes, the model consumes %d", name, pos, p-pos, used)
 				}
 				pos += used
@@ -322,7 +322,7 @@ func TestC15_Public(t *testing.T) {
 					g.Fatalf("%s called swap %d times although it returned the error %v", what, calls, e)
 				}
 				// whether a refused call may consume stream bytes is not documented: the model follows the generator
-				pos = storedPos(r.Store())
+				pos = streamPos(g, r, seed, nonce, pos, 1<<17)
 				nontrivial = true
 				g.Class("errorArgs")
 			}
